@@ -242,7 +242,7 @@ func (c *c05) RunDesc(desc json.RawMessage) engine.Result {
 		}
 	}
 	if in0.Tmpl%7 == 0 && in0.Pos == 1 && in0.Block == 2 {
-		res.Sample = sim.MustJSON(map[string]interface{}{"variant": cs.Variant, "inserted": tname, "block": in0.Block + 1, "pos": in0.Pos, "reason": reasons})
+		res.Sample = sim.MustJSON(map[string]interface{}{"variant": cs.Variant, "inserted": tname, "block": in0.Block + 1, "pos": in0.Pos, "reason": reasons, "history_with_insertion": describeBlocks(h)})
 	}
 	return res
 }
